@@ -3,6 +3,7 @@ import PartituraModel.Model.XmlMeasure
 import PartituraModel.Model.RangeNumbers
 import PartituraModel.Model.XmlNote
 import PartituraModel.Model.XmlDir
+import PartituraModel.Model.Binary64
 
 open Wire Model.Xml
 open Model.Ranges (Mark TieNote)
@@ -400,6 +401,34 @@ def handle (ts : List String) : String :=
     | some x =>
       match Model.XmlDir.readSound x with
       | some r => fmtOpt DirWire.fmtTempo r
+      | none => "err"
+    | none => "bad-request"
+  | "wsci" :: rest =>
+    -- the element written for a tempo whose `repr` has mantissa `t` and exponent `ex`
+    match run (do let t ← DirWire.pTempo; let ex ← int; pure (t, ex)) rest with
+    | some (t, ex) =>
+      XmlWire.fmtXml (Model.Binary64.writeSoundSci t ex) ++ "/" ++ fmtBool (decide (Model.XmlDir.WellFormedTempo t))
+    | none => "bad-request"
+  | "fsound" :: rest =>
+    -- `float(e.attrib["tempo"])`: the binary64 number the model reader makes of the text
+    match run XmlWire.pXml rest with
+    | some x =>
+      match Model.Binary64.readSoundNum x with
+      | some (some d) => fmtNat d.m ++ ":" ++ fmtInt d.e
+      | some none => "-"
+      | none => "err"
+    | none => "bad-request"
+  | "wfsound" :: rest =>
+    -- hypotheses of tempo_number_roundtrip_exponent on an element written: the score's quarter tempo m·2^e is normal, the
+    -- text is a well-formed literal, it lies inside the rounding interval of the tempo; and the conclusion
+    match run (do let m ← nat; let e ← int; let x ← XmlWire.pXml; pure (m, e, x)) rest with
+    | some (m, e, x) =>
+      let d : Model.Binary64.Dbl := ⟨m, e⟩
+      match (x.get .tempo).bind Model.Binary64.parseSci with
+      | some p =>
+        fmtBool (decide d.Normal) ++ "/" ++ fmtBool (decide (Model.XmlDir.WellFormedTempo p.1)) ++ "/" ++
+          fmtBool (Model.Binary64.closeTo d (Model.Binary64.sciValue p)) ++ "/" ++
+          fmtBool (decide (Model.Binary64.readSoundNum x = some (some d)))
       | none => "err"
     | none => "bad-request"
   | "wattr" :: rest =>
